@@ -56,7 +56,12 @@ pub trait TranslationMemory {
                 }
                 None => break,
             }
-            match self.get_u8(address + i as u64) {
+            // stop at the end of the address space instead of overflowing
+            let byte_address = match address.checked_add(i as u64) {
+                Some(byte_address) => byte_address,
+                None => break,
+            };
+            match self.get_u8(byte_address) {
                 Some(u) => bytes.push(u),
                 None => break,
             };
